@@ -34,6 +34,13 @@ def gen(tier, seed):
             cases.append(("emit-error-size", f"add r0 r0 #1\nfar halt\n.blkw #{k}\n{m} far\nadd r0 r0 #1\nhalt\n"))   # middle
     cases.append(("ok", "halt\n")); cases.append(("ok", "a add r0 r0 #1\nbr a\nhalt\n"))
     cases.append(("parse-error", "halt\nadd r0\n")); cases.append(("lex-error", "halt\n`\n"))
+    # images that reach or pass the end of the address space: whatever `compile` decides about them (the model
+    # says: they assemble), the decision is taken before the destination is touched
+    for t in (".orig xFFFF\nadd r0 r0 #1\nhalt\n", ".orig xFFFF\nhalt\n", ".orig xFFFE\nadd r0 r0 #1\nhalt\n",
+              ".blkw xCFFE\nadd r0 r0 #1\nhalt\n", ".blkw xCFFF\nadd r0 r0 #1\nhalt\n", ".blkw xD000\nhalt\n",
+              ".orig xF000\n.blkw x0FFF\nhalt\nhalt\n", ".orig xFE00\nhalt\n", ".orig x0000\n.blkw xFFFD\nhalt\n",
+              ".orig xFFF0\n.stringz \"0123456789abcdefghij\"\n"):
+        cases.append(("image-at-end-of-memory", t))
     cases.append(("label-error", "halt\nbr nowhere\n")); cases.append(("ok", ".orig x4000\nlea r0 s\nputs\nhalt\ns .stringz \"x\"\n"))
     return cases
 
